@@ -217,6 +217,16 @@ func (s *State) evalInternal(node any) object.Object {
 	return res
 }
 
+// heavier is called (with its matching lighter) around the evaluations made from the few places whose own
+// Go frames are well above the per nesting stack share MaxNesting assumes: they count as one more nesting.
+func (s *State) heavier() {
+	s.nesting++
+}
+
+func (s *State) lighter() {
+	s.nesting--
+}
+
 // Same recoverable panic as the MaxDepth one in Eval (state must be Reset() afterwards).
 func (s *State) tooNested() {
 	panic("max depth reached: evaluation nested " + strconv.Itoa(MaxNesting) + " deep")
@@ -440,7 +450,9 @@ func (s *State) evalPrintLogError(node *ast.Builtin) object.Object {
 		if i > 0 {
 			buf.WriteString(" ")
 		}
+		s.heavier()
 		r := object.Value(s.evalInternal(v)) // deref: a string from an outer scope is still a string.
+		s.lighter()
 		// If what we print/println is an error, return it instead. log can log errors.
 		if r.Type() == object.ERROR && !doLog {
 			return r
@@ -502,7 +514,9 @@ func (s *State) evalDelete(node ast.Node) object.Object {
 		if !ok { // e.g. del([1]): an array literal also starts with [
 			return s.NewError("delete not supported on array literal")
 		}
+		s.heavier()
 		index := s.Eval(idxE.Index)
+		s.lighter()
 		if index.Type() == object.ERROR {
 			return index
 		}
@@ -599,7 +613,9 @@ func (s *State) evalBuiltin(node *ast.Builtin) object.Object {
 }
 
 func (s *State) evalIndexRangeExpression(left object.Object, leftIdx, rightIdx ast.Node) object.Object {
+	s.heavier()
 	leftIndex := object.CopyRegister(s.Eval(leftIdx)) // its value now: the right bound may change it (a[n:++n]).
+	s.lighter()
 	nilRight := (rightIdx == nil)
 	var rightIndex object.Object
 	if nilRight {
@@ -607,7 +623,9 @@ func (s *State) evalIndexRangeExpression(left object.Object, leftIdx, rightIdx a
 			log.Debugf("eval index %s[%s:]", left.Inspect(), leftIndex.Inspect())
 		}
 	} else {
+		s.heavier()
 		rightIndex = s.Eval(rightIdx)
+		s.lighter()
 		if log.LogDebug() {
 			log.Debugf("eval index %s[%s:%s]", left.Inspect(), leftIndex.Inspect(), rightIndex.Inspect())
 		}
